@@ -82,7 +82,7 @@ def describe(case, out):
 
 def run_family(prop, tier, propfile, components, oracle, n_quick, n_thorough, rule,
                want=('tables', 'components', 'exhaustive', 'greedy'), degenerate_every=5, extra_cases=None,
-               nontrivial=None, trusted_extra=(), assumptions=()):
+               nontrivial=None, trusted_extra=(), assumptions=(), post=None):
   ck = Check(prop, tier)
   ck.prove(propfile, gen_targets=GEN_TARGETS, extra=['harness/RunSearch.vo'])
   n = n_quick if tier == 'quick' else n_thorough
@@ -131,6 +131,8 @@ def run_family(prop, tier, propfile, components, oracle, n_quick, n_thorough, ru
                     % (comp, len(bad), nterms),
                     {'component': comp, 'case': slim(case), 'summary': describe(case, out),
                      'all': [(results[i][0]['seed'], c) for i, c in bad[:20]]})
+  if post:
+    post(ck, tier)
   ck.cov['rule'] = rule
   ck.cov['distribution'] = dict(dist)
   ck.cov['corpus_cases'] = n_corpus
